@@ -17,7 +17,7 @@ from . import common
 
 env.import_redress()
 
-from redress import AsyncRetry, Classification, ErrorClass, Retry  # noqa: E402
+from redress import AsyncRetry, Classification, ErrorClass, Retry, default_classifier  # noqa: E402
 from redress.errors import RateLimitError  # noqa: E402
 from redress.extras.http import _parse_retry_after, http_retry_after_classifier  # noqa: E402
 from redress.strategies import retry_after_or  # noqa: E402
@@ -681,6 +681,22 @@ def _end_to_end(ctx, viol, rng, i):
     case = {"hint": hint, "jitter_s": j, "deadline_s": deadline, "attempt_duration": dur, "draw": mode, "async": is_async, "shape": shape, "where": where, "strategy_table": table, "failures": script}
     strat = retry_after_or(lambda c: 0.125, jitter_s=j)
     skw = dict(strategy=strat) if table == "default" else dict(strategy=lambda c: 0.015625, strategies={ErrorClass.RATE_LIMIT: strat})
+    # a per-attempt timeout may be configured as well (it never fires here: the attempts take no real time); sync runs only - the
+    # async runs of this slice are stepped by hand, without an event loop for wait_for
+    at = rng.choice([None, None, None, 30.0, 600.0])
+    late = rng.random() < 0.25  # the classifier is assigned on the live policy after construction (`policy.classifier = ...`)
+    case = dict(case, attempt_timeout_s=None if is_async else at, classifier_assigned_later=late)
+
+    def build(cls):
+        kw = dict(deadline_s=deadline, max_attempts=5, **skw)
+        if not is_async and at is not None:
+            kw["attempt_timeout_s"] = at
+        if late:
+            pol = cls(classifier=default_classifier, **kw)
+            pol.classifier = http_retry_after_classifier
+            return pol
+        return cls(classifier=http_retry_after_classifier, **kw)
+
     with env.active(world):
         t0 = world.t
         try:
@@ -692,7 +708,7 @@ def _end_to_end(ctx, viol, rng, i):
                     sleeps.append((s, world.t - t0))
                     world.t += s
 
-                r = AsyncRetry(classifier=http_retry_after_classifier, deadline_s=deadline, max_attempts=5, **skw)
+                r = build(AsyncRetry)
                 co = r.call(aop, sleeper=asl)
                 try:
                     co.send(None)
@@ -704,7 +720,7 @@ def _end_to_end(ctx, viol, rng, i):
                 dtrace = []
                 world.trace, world.call_t0 = dtrace, t0
                 try:
-                    Retry(classifier=http_retry_after_classifier, deadline_s=deadline, max_attempts=5, **skw).call(op_body)
+                    build(Retry).call(op_body)
                 finally:
                     world.trace = None
                     sleeps.extend((e_[1], e_[2]) for e_ in dtrace if e_[0] == "dsleep")
@@ -714,7 +730,7 @@ def _end_to_end(ctx, viol, rng, i):
                     sleeps.append((s, world.t - t0))
                     world.t += s
 
-                Retry(classifier=http_retry_after_classifier, deadline_s=deadline, max_attempts=5, **skw).call(op_body, sleeper=sl)
+                build(Retry).call(op_body, sleeper=sl)
         except Http429:
             pass
         except BaseException as x:  # noqa: BLE001
